@@ -31,13 +31,15 @@ def _p_at_d():
     d1 = sorted(hpset.disc(D, *C1))
     return dict(P1=[d1[0], d1[1], d1[-1]],                      # a few pixels at depth D already/partly present
                 P2=[sorted(hpset.ascend(d1, D, D - 1))[0]],     # a parent (depth D-1) of present children
-                P3=[4 * 7, 4 * 7 + 1, 4 * 7 + 2, 4 * 7 + 3, 100])  # a complete quad + a single
+                P3=[4 * 7, 4 * 7 + 1, 4 * 7 + 2, 4 * 7 + 3, 100],  # a complete quad + a single
+                P4=[sorted(hpset.ascend(d1, D, 1))[0], 41])     # pixels at the COARSEST level (1): an ancestor of present pixels + another
 PS = _p_at_d()
 
 OPS = [
     ("X.add_circles", "C1"), ("X.add_circles", "C2@%d" % (D - 1)), ("Y.add_circles", "C2"), ("Y.add_circles", "C1@%d" % (D - 1)),
     ("X.add_circles", "C3"), ("X.add_poly", "POLY"), ("Y.add_poly", "POLY@%d" % (D - 1)),
     ("X.add_pixels", "P1@%d" % D), ("X.add_pixels", "P2@%d" % (D - 1)), ("Y.add_pixels", "P3@%d" % D),
+    ("X.add_pixels", "P4@1"), ("L.add_pixels", "P4@1"),
     ("L.add_circles", "C1"), ("H.add_circles", "C2"),
     ("X.union", "Y"), ("Y.union", "X"), ("X.union", "L"), ("X.union", "H"), ("L.union", "X"), ("H.union", "X"),
     # union without renormalisation: normal form (area, single representation) is deferred until the next normalising
